@@ -1,6 +1,7 @@
 package verifsim
 
 import (
+	"encoding/base64"
 	"crypto/sha256"
 	"encoding/json"
 	"errors"
@@ -366,6 +367,32 @@ func RunJobScenario(sc *Scenario) (vd *Verdict) {
 		case "addJob":
 			// predicates of MultiSource joins are CURIEs: resolve the markers against this hub's prefixes
 			if src, ok := op.M["source"].(map[string]any); ok {
+				if deps, ok := src["_Dependencies"].([]any); ok && src["_track"] == true {
+					// track_queries form: each path is walked from the main dataset back to its dependency dataset; a
+					// join declared inverse is a plain hop in that direction and vice versa
+					code := "function track_queries(reg) {\n"
+					for _, d := range deps {
+						dm := d.(map[string]any)
+						joins := dm["joins"].([]any)
+						line := "reg"
+						for k := len(joins) - 1; k >= 0; k-- {
+							jm := joins[k].(map[string]any)
+							target := fmt.Sprint(dm["dataset"])
+							if k > 0 {
+								target = fmt.Sprint(joins[k-1].(map[string]any)["dataset"])
+							}
+							fn := "iHop"
+							if inv, _ := jm["inverse"].(bool); inv {
+								fn = "hop"
+							}
+							line += fmt.Sprintf(".%s(%q, %q)", fn, target, r.H.curie(fmt.Sprint(jm["_pred"])))
+						}
+						code += line + ";\n"
+					}
+					code += "}\nfunction transform_entities(entities) { return entities; }\n"
+					op.M["transform"] = map[string]any{"Type": "JavascriptTransform", "Code": base64.StdEncoding.EncodeToString([]byte(code))}
+					r.Stats["track_queries_jobs"]++
+				}
 				if deps, ok := src["Dependencies"].([]any); ok {
 					for _, d := range deps {
 						for _, j := range d.(map[string]any)["joins"].([]any) {
@@ -1005,6 +1032,9 @@ func parseDeps(cfg map[string]any) (main string, deps map[string][][]c18Join) {
 	main = fmt.Sprint(src["Name"])
 	deps = map[string][][]c18Join{}
 	l, _ := src["Dependencies"].([]any)
+	if l == nil {
+		l, _ = src["_Dependencies"].([]any)
+	}
 	for _, x := range l {
 		m := x.(map[string]any)
 		var joins []c18Join
